@@ -171,6 +171,26 @@ impl Property for C12 {
                 o.count(&format!("op:{}", step.kind), 1);
                 let caller = &w.peers[by];
                 let mirror = &mirrors[by];
+                // the comparison supposes that the mirror holds the caller's definitions. A pull is only offered the
+                // rooms the key is a member of: once the caller's membership of a room has ended (as far as its own
+                // instance knows) the mirror keeps an older definition of that room and the two are not comparable
+                let mut same_definitions = true;
+                for r in &w.rooms {
+                    let a = caller.room(r.id).await.map(|x| dv::rights::RoomModel::from_room(&x));
+                    let b = mirror.room(r.id).await.map(|x| dv::rights::RoomModel::from_room(&x));
+                    if a.is_some() && a != b {
+                        same_definitions = false;
+                    }
+                }
+                if !same_definitions {
+                    o.label("mirror-holds-an-older-definition:not-compared");
+                    if res.is_ok() {
+                        // keep the mirror's rows in step as far as it is offered them
+                        let opts = PullOptions { as_key: Some(caller.verifying_key.clone()), ..Default::default() };
+                        let _ = pull(mirror, caller, &opts).await;
+                    }
+                    continue;
+                }
                 let ids: Vec<String> = step.touched_rows.iter().chain(step.new_row_ids.iter()).cloned().collect();
                 match res {
                     Ok(()) => {
@@ -193,7 +213,14 @@ impl Property for C12 {
                                 o.label("accepted-row-in-room-not-offered-to-its-author");
                                 continue;
                             }
-                            if a != b || da != db {
+                            if a == b && da != db && da >= 2 {
+                                // the row has two deletion records (deleted on two instances): a batch carrying both
+                                // applies one of them only - the C03 finding two-deletion-records-one-row, seen from here
+                                let sig = "deletion-records-differ:after:two-deletion-records-one-row".to_string();
+                                if seen.insert(sig.clone()) {
+                                    o.violation(sig, format!("step {} {:?}: caller stores {} deletion records of row {}, the honest peer {}", i, op, da, id, db));
+                                }
+                            } else if a != b || da != db {
                                 let sig = format!("accepted-locally-refused-by-peer:{}", step.kind);
                                 if seen.insert(sig.clone()) {
                                     o.violation(sig, format!("step {} {:?}: caller stores {:?} ({} deletion records), honest peer with the same definition stores {:?} ({}); link errors {:?}", i, op, a, da, b, db, st.sync_errors));
